@@ -87,6 +87,60 @@ fn write_complex_type<W>(''')], 'C15 C02'),
  ('rename loop variable in Vec impl', HC, [('for c in self {\n                c.check_restrictions(restrictions.clone())?;', 'for item in self {\n                item.check_restrictions(restrictions.clone())?;')], 'C06 C07'),
  ('use is_none guard in switch_to_target_namespace', DOC, [('        if !self.target_namespaces.iter().any(|ns| ns.namespace == namespace) {', '        if self.target_namespaces.iter().all(|ns| ns.namespace != namespace) {')], 'C10'),
 ]
+
+CPLX = 'zeep-lib/src/model/structures/complex.rs'
+RSTR = 'zeep-lib/src/model/structures/restrictions.rs'
+ELEM = 'zeep-lib/src/model/structures/element.rs'
+NODE = 'zeep-lib/src/model/node.rs'
+EDITS += [
+ ('rename local tag_name in import_sequence_node_fields', CPLX, [('let tag_name = child.tag_name().name();', 'let tag = child.tag_name().name();'), ('if tag_name == "choice" {', 'if tag == "choice" {'), ('if tag_name == "sequence" {', 'if tag == "sequence" {'), ('if tag_name == "attributeGroup" {', 'if tag == "attributeGroup" {')], 'C02 C08'),
+ ('attributeGroup test first in import_sequence_node_fields', CPLX, [("""        if tag_name == "attributeGroup" {
+            // attribute groups are not supported (they used to be skipped by the early return above)
+            continue;
+        }
+
+""", ''), ("""        if tag_name == "choice" {
+            import_choice_fields""", """        if tag_name == "attributeGroup" {
+            continue;
+        }
+
+        if tag_name == "choice" {
+            import_choice_fields""")], 'C02'),
+ ('swap is_choice / in_choice lines in Field::try_from_node', FIELD, [("""        let is_choice = node.parent().is_some_and(|n| n.tag_name().name() == "choice");
+        let in_choice = groups.iter().any(|n| n.tag_name().name() == "choice");
+""", """        let in_choice = groups.iter().any(|n| n.tag_name().name() == "choice");
+        let is_choice = node.parent().is_some_and(|n| n.tag_name().name() == "choice");
+""")], 'C02'),
+ ('is_optional with reordered disjuncts', FIELD, [('node.attribute("minOccurs") == Some("0") || parent_is_optional || in_choice', 'in_choice || parent_is_optional || node.attribute("minOccurs") == Some("0")')], 'C02'),
+ ('reorder facet reads in build_restrictions', RSTR, [("""    get_restriction_from_attribute_or_node(restriction, &mut restrictions.min_length, "minLength");
+    get_restriction_from_attribute_or_node(restriction, &mut restrictions.max_length, "maxLength");
+""", """    get_restriction_from_attribute_or_node(restriction, &mut restrictions.max_length, "maxLength");
+    get_restriction_from_attribute_or_node(restriction, &mut restrictions.min_length, "minLength");
+""")], 'C07'),
+ ('rename local complex_props in ElementProps::try_from_node', ELEM, [('let complex_props = ComplexProps::try_from_node(n, doc)?;', 'let cp = ComplexProps::try_from_node(n, doc)?;'), ('element_type: ElementType::ComplexType(complex_props),', 'element_type: ElementType::ComplexType(cp),')], 'C02'),
+ ('reorder match arms in RustNode::try_from_node', NODE, [("""            "simpleType" => {
+                // determine simpleType's-type: enum, list
+                rust_type = RustType::Simple(SimpleProps::try_from_node(node, doc)?.into());
+            }
+""", ''), ("""            "element" => {
+                // determine element's-type: struct, enum, list
+                rust_type = RustType::Element(ElementProps::try_from_node(node, doc)?.into());
+            }
+""", """            "element" => {
+                // determine element's-type: struct, enum, list
+                rust_type = RustType::Element(ElementProps::try_from_node(node, doc)?.into());
+            }
+            "simpleType" => {
+                rust_type = RustType::Simple(SimpleProps::try_from_node(node, doc)?.into());
+            }
+""")], 'C02'),
+ ('rename local base_node in import_extension_fields', CPLX, [('let base_node = doc', 'let found = doc'), ('match &base_node.rust_type {', 'match &found.rust_type {')], 'C08'),
+ ('types_only test first in find_component_by_xml_name', DOC, [("""            node.rust_type.xml_name().is_some_and(|n| n == xml_name)
+                && node.in_namespace.as_deref() == namespace
+                && !(types_only && matches!(node.rust_type, RustType::Element(_)))""", """            !(types_only && matches!(node.rust_type, RustType::Element(_)))
+                && node.rust_type.xml_name().is_some_and(|n| n == xml_name)
+                && node.in_namespace.as_deref() == namespace""")], 'C09'),
+]
 sel = [int(x) for x in sys.argv[1:]] or range(len(EDITS))
 for k in sel:
     name, f, reps, ids = EDITS[k]
